@@ -7,9 +7,12 @@ ID = 'C12'
 TARGETS = ['MindsVerif.Props.C12']
 THEOREMS = ['MindsVerif.Props.C12.' + n for n in (
     'C12_count', 'C12_found_perm', 'C12_textual', 'C12_fill', 'C12_visits', 'C12_execute', 'C12_mismatch', 'C12_partial',
-    'phi12', 'phi12_markers', 'C12_update_textual', 'C12_from_arg', 'C12_case_operand', 'C12_second_execute', 'C12_info_after_execute',
-    'C12_keeps_alias')]
+    'phi12', 'phi12_markers', 'C12_samples', 'C12_update_textual', 'C12_update_textual_oldwalker', 'C12_from_arg',
+    'C12_case_operand', 'C12_second_execute', 'C12_info_after_execute', 'C12_keeps_alias', 'C12_review_visits_reordered')]
 ASSUME = [
+    'the slot kinds of the probed schema (which positions count as expression / table / query positions, hence where a '
+    'placeholder must be found) come from the hand-written tools/harness/walkspec.py; C12_count counts what the walk visits, '
+    'the link to the `?` of the text is the coverage clause plus the parser and is checked on the real code by the oracle',
     'get_query_params / fill_query_params = the walker model (C13) with the visitors cbFind / cbFillMap, ordered by rendered position (Params.sortByText over Walk.textOrder, print templates); prepare / execute / '
     'get_statement_info are hand-transcribed (Model/Params.lean); tie = correspondence stream (find, fill with n and n-1 '
     'values, call sequences) against the real functions and a real QueryPlanner',
@@ -558,7 +561,8 @@ def run(chk):
         chk.samples.append(dict(dialect=d, text=text[:160], mode=m, arg=a, impl=' '.join(real.get('visits', []))[:200], extra=real.get('extra')))
     chk.samples.append(dict(theorem='C12_fill σ P C q vs : |vs| = |getParams σ P q| → no IndexError, no value left, the (placeholder, value) pairs made '
                                     'by the walk are a permutation of (i-th placeholder in textual order, vs[i]); nothing else is replaced'))
-    chk.samples.append(dict(theorem='C12_textual: the reported placeholders are ordered by rendered position (no okTree hypothesis); C12_visits: on okTree every required node is visited'))
+    chk.samples.append(dict(theorem='C12_textual: the reported placeholders are ordered by rendered position (no okTree hypothesis); C12_visits: on okTree every required node is visited; '
+                                    'C12_samples: the hypotheses hold on parser trees of real statements emitted by the extractor'))
     return chk.finish(assumptions=ASSUME)
 
 
